@@ -93,6 +93,16 @@ CHECKS.update({
         text="C15_operator_table pins ArithmeticOp::calc as regenerated; C15_parse_witnesses evaluates, through the model parser and evaluator, the witnesses that separate every precedence / associativity / bracket / unary-minus rule and the column pairs that differ only in operator or brackets. On every run random expressions to depth 4 in select lists of 1-5 columns are evaluated by the binary and compared with binary64 arithmetic (oracle), with the same column selected alone, and with the model pipeline; WHERE on expressions likewise.",
         note="The general parser round-trip theorem (for every expression) is not yet proved: the witnesses are finite. f64 % is compared with the oracle only. Literals are plain numbers (unit literals inside arithmetic go through parse_filesize, C14).",
         design="6 C15"),
+    "C16": dict(
+        technique="Differential test of function::get_value (through #[path] inclusion) and of nested calls on the binary against the documented value of each function; Coq model of the functions with per-function theorems (in progress)",
+        text="Every documented scalar function is called with structured and adversarial argument strings through the real get_value and compared exactly with its documented value (libm-backed ones with 1e-12 tolerance); wrong-kind arguments must yield an empty value or a status-2 diagnostic; compositions to depth 3 over generated entries are compared on the binary. The generated function-name table is pinned by a theorem.",
+        note="Until model/Funcs.v is integrated the theorems for this property are limited to the name table; Unicode case mapping beyond ASCII/Latin/Greek/Cyrillic and the cases the documentation leaves open (SUBSTR position 0, length 0; empty REPLACE needle) are counted, not judged.",
+        design="6 C16"),
+    "C18": dict(
+        technique="Executable Coq graph model of visit_dir with the symlinks option (visited_dirs, visited_inodes keyed by the target's inode, gates regenerated from the source) with kernel-evaluated cycle witnesses + differential test on link-decorated trees incl. cycles, chains, mutual and self links",
+        text="model/WalkLinks.v mirrors the follow-symlinks branch after the four fix commits; on every run trees decorated with links of every kind are searched with and without the option, bfs and dfs: the search must terminate with status 0, list every (reachable real directory, entry) pair exactly once, list nothing from behind a link without the option, and produce exactly the model's row sequence on the observed graph.",
+        note="Termination and once-per-directory are not yet theorems for every graph (witnesses + differential test); the depth window behind followed links is computed from canonical paths by the source and only reproduced, not specified.",
+        design="6 C18"),
 })
 
 ALL = ["C%02d" % i for i in range(1, 21)]
